@@ -47,7 +47,7 @@ vars == <<m, pending, cur, replies, nline, nev, reg, exp, may, cnt>>
 
 ----------------------------------------------------------------------------
 (* Line kinds.                                                              *)
-DataKinds  == {"d", "dS", "dE", "dM", "dP", "dK", "d0"}   \* plain / looks like "250 x" / "650 EV x" / "250-x" / "250+x" / "k=v" / empty
+DataKinds  == {"d", "dS", "dE", "dM", "dP", "dK", "d0", "dL"}   \* plain / looks like "250 x" / "650 EV x" / "250-x" / "250+x" / "k=v" / empty / long (17 kB, below Tor's 1 MiB line limit)
 BareKinds  == {"sB", "mB", "pB"}                    \* event first line consisting of the name only
 FinalKinds == {"s", "sOK", "sB"}
 MidKinds   == {"m", "mB"}
